@@ -56,6 +56,8 @@ func main() {
 		for _, id := range ids {
 			fmt.Println(id)
 		}
+	case "normalize":
+		os.Exit(cmdNormalize())
 	case "mutant":
 		os.Exit(cmdMutant(os.Args[2:]))
 	default:
@@ -136,6 +138,48 @@ func runOne(prop *Property, cfg Config, rep *Report) {
 		return
 	}
 	rep.Pass(prop.ID+".R0", "load", "-", fmt.Sprintf("%d module packages, %d module functions type-checked and converted to SSA", len(p.Pkgs), p.NFuncs))
+	sub := rep.child()
+	runRules(prop, p, sub)
+	if failing := sub.failingRules(); len(failing) > 0 && os.Getenv("OXY_NO_NORMALIZE") == "" && len(cfg.Overlay) == 0 {
+		// second opinion on a semantics-preserving normal form: helpers that did not exist in the
+		// reference tree are inlined back into their callers; a rule is reported as failed only
+		// if it fails on BOTH forms (the normal form can only discharge obligations)
+		if ov, names, nerr := Normalize(p); nerr == nil && len(names) > 0 {
+			ncfg := cfg
+			ncfg.Overlay = ov
+			if np, lerr := Load(ncfg); lerr == nil {
+				sub2 := rep.child()
+				runRules(prop, np, sub2)
+				f2 := sub2.failingRules()
+				var rescued []string
+				for rule := range failing {
+					if !f2[rule] {
+						rescued = append(rescued, rule)
+					}
+				}
+				sort.Strings(rescued)
+				if len(rescued) > 0 {
+					sub.replaceRules(rescued, sub2)
+					rep.Note(fmt.Sprintf("%s under %s: rule(s) %s discharged on the normal form with new helper(s) inlined: %s", prop.ID, cfg, strings.Join(rescued, ","), strings.Join(names, ", ")))
+				}
+			} else {
+				rep.Note("normal form did not load (kept the verdict on the original form): " + truncate(lerr.Error(), 200))
+			}
+		} else if nerr != nil {
+			rep.Note("normalisation failed (kept the verdict on the original form): " + truncate(nerr.Error(), 200))
+		}
+	}
+	rep.absorb(sub)
+}
+
+// runRules evaluates the rules; an analyser panic is an UNDECIDED failure of the check.
+func runRules(prop *Property, p *Prog, rep *Report) {
+	defer func() {
+		if e := recover(); e != nil {
+			rep.add(Ob{Rule: prop.ID + ".R0", Construct: "analyser", Pos: "-", OK: false, Kind: KUndecided,
+				Msg: fmt.Sprintf("analyser panic: %v\n%s", e, truncate(string(debug.Stack()), 1500))})
+		}
+	}()
 	prop.Run(p, rep)
 }
 
@@ -192,6 +236,22 @@ func cmdExplain(args []string) int {
 	}
 	if !found {
 		fmt.Println("the obligation no longer exists on this tree (construct not found)")
+	}
+	return 0
+}
+
+// cmdNormalize prints the normalised files (debugging aid).
+func cmdNormalize() int {
+	p, err := Load(Config{})
+	if err != nil {
+		fmt.Println("load:", err)
+		return 1
+	}
+	ov, names, err := Normalize(p)
+	fmt.Println("inlined:", names, "err:", err)
+	for f, b := range ov {
+		fmt.Println("=====", f)
+		fmt.Println(string(b))
 	}
 	return 0
 }
